@@ -68,6 +68,7 @@ def run(tier, replay=None):
     else:
         cases = graph_cases(r, tier, 500 if tier == "quick" else 8000, 12 if tier == "quick" else 30, small_exhaustive=4,
                             styles=("unit", "two", "small", "dyadic", "wide"), big=True)
+        for i, c in enumerate(large_tie_graphs(r, tier)[:3]): cases["L%d" % i] = c
     outs, blocks = "", {}
     for which in ("horton", "fvs", "iso"):
         rc, out, err = run_graph_kind(binary, "cands", {cid + "-" + which: c for cid, c in cases.items()}, args_of=lambda cid, which=which: [which])
